@@ -91,7 +91,7 @@ def step (st : St) (l : Line) : St × Verdict :=
           if jobs ≠ want then .specFail "C15.portfwd" s!"forward {i}: its target answered {data} and closed; socket-write tasks for the agent: {jobs}, expected {want}" else .ok)
       else (st, if jobs ≠ "-" then .specFail "C15.portfwd" s!"forward {i} has no open connection to answer on, yet tasks {jobs} were queued" else .ok)
     | _, _ => (st, .bad "pfreply")
-  | "pfremove", [sid] =>
+  | "pfremove", sid :: _type =>      -- whichever socket type the agent reports the removal with
     match sid.toNat? with
     | some i =>
       let st' := { st with pf := (PortFwd.step st.pf (.remove i)).1, answered := st.answered.filter (· ≠ i) }
